@@ -62,7 +62,7 @@ theorem write_connless_eq (t : Huffman.Table) (payload : List UInt8) (cap : Nat)
   have h1 : ¬ payload.length > Tw.Gen.Packet6.CONNLESS_WRITE_LIMIT := by omega
   rw [if_neg h1]
   have e : List.replicate (Tw.Gen.Packet6.HEADER_SIZE + Tw.Gen.Packet6.PADDING_SIZE_CONNLESS)
-      (UInt8.ofNat (Tw.Gen.Packet6.bytelits_write_connless_packet.getD 0 0)) = List.replicate 6 (255 : UInt8) := by decide
+      (UInt8.ofNat Tw.Gen.Packet6.CONNLESS_PADDING_BYTE) = List.replicate 6 (255 : UInt8) := by decide
   rw [e, bufWrite_of_le (by simp; omega)]
   simp only [List.nil_append]
   rw [bufWrite_of_le (by simp; omega)]
